@@ -1,5 +1,5 @@
 (* C09 (redundant parentheses): two printed trees that differ only in parenthesis nodes parse to the same tree *)
-Require Import Parser ParserShape ParserLay ParserRoundTrip.
+Require Import Parser ParserShape ParserLay ParserRoundTrip ParserRoundTripV.
 Require Import Printer.
 From Coq Require Import List String ZArith Bool Lia Arith.
 Import ListNotations.
@@ -30,4 +30,12 @@ Proof.
   intros W W' S. destruct (roundtrip o t W) as [k Hk]. destruct (roundtrip o t' W') as [k' Hk'].
   exists (want o t), k, k'. split; [exact Hk|]. rewrite Hk'. f_equal.
   rewrite <- (want_strip o t'), <- S, want_strip. reflexivity.
+Qed.
+
+(* the same at the level of parse_toks (parser loop and Validate) *)
+Lemma same_parse_modulo_parens o t t' : wfq o t -> wfq o t' -> strip t = strip t' ->
+  parse_toks o ""%string (pr t ++ [eof]) = parse_toks o ""%string (pr t' ++ [eof]) /\ parse_toks o ""%string (pr t ++ [eof]) = PTree (want o t).
+Proof.
+  intros W W' S. rewrite (printed_tree_parses o t W), (printed_tree_parses o t' W'). split; [|reflexivity].
+  f_equal. rewrite <- (want_strip o t'), <- S, want_strip. reflexivity.
 Qed.
